@@ -500,6 +500,8 @@ func checkC10(w *World, r *Report) {
 	c10Private(w, r)
 	c10NoWriteIntoCallerSlices(w, r)
 	c10NoPartialAnswerOnError(w, r)
+	r.Rule("R10.12", "answer records keep no recycled memory: what is taken from a sync.Pool is scratch space only (a record is packed after the wrapping function returned)", 1)
+	rulePoolMemoryStaysLocal(w, r, "R10.12", func(p string) bool { return strings.HasPrefix(p, modPath+"/internal/streams/dns") || strings.HasPrefix(p, modPath+"/internal/util/enc") })
 }
 
 type wrapInfo struct {
